@@ -78,6 +78,9 @@ theorem Soft.refl (now : Nat) (l : FLink F) : Soft now l l :=
 /-- The four arms of the event loop that touch links. -/
 inductive Arm where
   | client | uplink | flush | hk
+  /-- `apply_connection_changes` (event `reload`): links are removed / kept with their whole record / freshly
+  constructed -/
+  | reload
 deriving DecidableEq, Repr
 
 /-- What a per-link predicate has to survive to be preserved by every event of arm `arm` whose clock is
@@ -86,7 +89,7 @@ perform it: the data path (queue, drain, tear-down after a failed send, the sele
 `client`, the drain for `flush`, the ACK / NAK handlers, REG3 and REG_ERR's tear-down for `uplink`
 (`SRTLA ACK`s by the classic rule iff `classic`), the reconnect reset, the `mark_for_recovery` fallback
 of a failed socket re-creation and — only if `¬ classic` — `perform_window_recovery` for `hk`; field
-stamps (`Soft`) for all. -/
+stamps (`Soft`) for all; `fresh` (the record `connect_uplink` constructs satisfies the predicate) for `reload`. -/
 structure Closed (now : Nat) (arm : Arm) (classic : Bool) (P : FLink F → Prop) : Prop where
   soft : ∀ l l', Soft now l l' → P l → P l'
   queue : arm = .client → ∀ l pkt seq, SeqOk seq → P l → P (l.queueDataPacket pkt seq now).1
@@ -101,6 +104,8 @@ structure Closed (now : Nat) (arm : Arm) (classic : Bool) (P : FLink F → Prop)
   nak : arm = .uplink → ∀ l seq, P l → P { l with core := (l.core.nak seq now).1 }
   select : arm = .client → ∀ (ls : List (FLink F)) last cfg, (∀ l ∈ ls, P l) →
     ∀ p ∈ ls.zip (selectIdx (ls.map FLink.toSLink) last now cfg).1, P (p.1.absorb p.2)
+  /-- a reload appends freshly constructed registering links (`connect_uplink` → `new_registering`) -/
+  fresh : arm = .reload → ∀ connId addr, P (FLink.newUplink connId addr now)
 
 /-- `P` holds of every link. -/
 def All (P : FLink F → Prop) (ls : List (FLink F)) : Prop := ∀ l ∈ ls, P l
@@ -676,6 +681,7 @@ def evNow : Ev → Nat
   | .failBind _ => 0
   | .stamp _ _ _ _ _ => 0
   | .syncTimeout => 0
+  | .reload now _ _ => now
 
 /-- The arm of the event loop an event belongs to (`none`: the configuration / injection events, which do not
 touch the links; the verdict stamps and `sync_conn_timeout` are the tail / head of the housekeeping arm and only need
@@ -691,6 +697,7 @@ def evArm : Ev → Option Arm
   | .failBind _ => none
   | .stamp _ _ _ _ _ => some .hk
   | .syncTimeout => some .hk
+  | .reload _ _ _ => some .reload
 
 /-- A verdict stamp is outside the accounting view and writes no time stamp. -/
 theorem soft_verdicts (now : Nat) (weak ld ccb : Bool) (cct : Nat) (l : FLink F) :
@@ -735,5 +742,7 @@ theorem step_all {P : FLink F → Prop} (s : Sys F) (e : Ev)
       exact (hc .hk rfl).soft _ _ (soft_stampOne 0 idx weak ld ccb cct j l) (h l (List.mem_of_getElem? hlj))
   | syncTimeout =>
     exact all_map h _ fun l hl => (hc .hk rfl).soft _ _ (soft_syncOne 0 s.cfg.connTimeoutMs l) hl
+  | reload now addrs outs =>
+    exact reload_all now addrs outs h ((hc .reload rfl).fresh rfl)
 
 end Srtla.SysInv
